@@ -7,7 +7,7 @@ TMP = str(ROOT / "build" / "_chk.v")
 # property -> (imports, [(theorem, module-qualified or plain name)])
 SPEC = {
  "C02": ("Kernels SliceAP ColSlice SelRows GetItem SetItem", ["col_kernel_spec","ap_getslice","col_slice_row","build_indices_correct","resolve_ok","resolve_cells","sel_rows_In"]),
- "C13": ("Bits BitProof WindowCore DigitSlice WindowProof", ["pack_registers","window_core","digits_slice"]),
+ "C13": ("Bits BitProof BitGetList WindowCore DigitSlice WindowProof", ["getlist_correct","pack_registers","window_core","digits_slice"]),
  "C01": ("Shape BuildIdx Geometry GeomProof", ["geometry_starts","geometry_lengths","geometry_size","build_rows_observers","build_flat_accept","build_flat_reject","to_numpy_spec","from_numpy_roundtrip","legacy_offsets_shape","unravel_all","ravel_all","build_indices_correct"]),
  "C03": ("SetItem XorProof", ["setitem_correct","getitem_factor","resolve_cells","raw_broadcast_correct"]),
  "C04": ("UfuncProof XorProof", ["ufunc2_correct","raw_broadcast_correct"]),
@@ -18,7 +18,7 @@ SPEC = {
  "C09": ("ColProof ColSum Struct2 Struct2Proof", ["col_counts_correct","colsum_correct","get_column_values_correct"]),
  "C10": ("HeapProof HeapRun HeapRunProof", ["run_sim","C10_partial","apply_hsel_natural","safe_runb_iff","C10_partial_concrete","heap_run_is_value_semantics","C10_refuted"]),
  "C11": ("HashInit HashSet HashProof", ["Inv_mk","table_is_dictionary","getv_correct","write_one","setv_correct"]),
- "C12": ("CounterProof", ["count_correct","count_history","totals_of_batches","totals_split_and_order_invariant"]),
+ "C12": ("CounterProof FastIndices", ["count_correct","count_history","totals_of_batches","totals_split_and_order_invariant","fast_indices_is_build_indices","fast_indices_correct"]),
  "C14": ("RoundTrip RLEProof RLEPer CanonProof ToArray StepProof StartEnd BinaryProof RLConcat", ["to_array_from_array","from_array_canonical","decode_from_array","decode_from_array_R","to_array_correct","join_runs_canonical","start_to_end_shape","step_subset_pos","apply_binary_correct","rl_concat_correct"]),
  "C15": ("RLEIndex RLEIndex2 GetSlice StartEnd StepProof StepNeg", ["get_position_correct","get_positions_correct","get_bool_mask_correct","get_slice_correct","start_to_end_decode","start_to_end_shape","step_subset_pos","step_subset_neg"]),
  "C16": ("BinaryProof RLEMisc RLConcat RLEReduce", ["apply_binary_correct","rl_map_correct","rl_sum_correct","rl_any_correct","rl_all_correct","rl_max_correct","rl_mean_correct","rl_hist_correct","rl_concat_correct"]),
